@@ -42,6 +42,7 @@ package upstream
 //@   property C04, C16
 //@   ensures err == nil && mustSecure ==> sessionOf(ups.Connection) != nil && sessionOf(ups.Connection).Secure()   :required_security_is_met_or_no_session
 //@ func (ups *Http) Connect
+//@   property C01
 //@   implements (github.com/bokysan/socketace/v2/internal/client/upstream.Upstream).Connect
 //@   property C05, C04
 //@   callsite NewClientConnection#1 (arg1 cert.TlsConfig) require arg1 == manager                       :session_handshake_gets_the_callers_certificate_manager
